@@ -165,6 +165,26 @@ def run(chk):
             expect = [np.asarray(nv[o]) for o in prog["outs"]]
             chk.case(key=("C", str(prog["steps"]), str([i["shape"] for i in prog["inputs"]])), nontrivial=True)
             replay(chk, prog, expect, "single-op", 1, rng, 1, stats)
+    # ---- (D) reductions over MANY blocks on skewed block grids (9x3, 10x5, 11x3, 9x3x2, 17x2 ...): the number of combine rounds
+    # differs per axis; multi-axis and whole-array reductions, plain and inside a larger expression
+    grids = [([9, 3], [1, 1]), ([10, 5], [1, 1]), ([11, 3], [1, 1]), ([9, 3, 2], [1, 1, 1]), ([17, 2], [1, 1]), ([18, 6], [2, 2]),
+             ([5, 21], [1, 1]), ([33, 2], [1, 2])]
+    if chk.tier == "quick":
+        grids = rng.sample(grids, 4)
+    for shp, ch in grids:
+        for op, kw in (("sum", dict(axis=None)), ("max", dict(axis=[0, 1])), ("mean_sq", dict(axis=None)),
+                       ("split_sum", dict(axis=None, split_every=rng.choice([2, 3]))), ("any", dict(axis=[0, 1], keepdims=True))):
+            inp = dict(shape=shp, chunks=ch, dtype="int64", seed=rng.randint(0, 9), pattern="lin", src="asarray")
+            steps = [dict(op=op, args=[0], kw=kw)]
+            if op == "mean_sq":
+                steps.append(dict(op="subtract", args=[0, 1]))      # a - mean(a): an extra axis would broadcast away
+            prog = dict(inputs=[inp], steps=steps, outs=[len(steps)], family="skewed-grid-reduction")
+            try:
+                nv = programs.Interp(np, False).run(prog)
+            except Exception:
+                continue
+            chk.case(key=("D", str(prog["steps"]), str(shp)), nontrivial=True)
+            replay(chk, prog, [np.asarray(nv[o]) for o in prog["outs"]], "skewed-grid", 1, rng, 1, stats)
     chk.extra.update(stats)
 
 
